@@ -67,7 +67,10 @@ def worker_main(argv):
     def run_case(recipe, record=True):
         prog = chk.compile(recipe, kind=kind, cpu=cpu, tier=tier)
         text = prog.text()
-        outcome, rc, hist, output = runner.run(text, active_cpus=prog.cfg_active_cpus, budget_s=chk.case_budget_s)
+        # while shrinking a stuck witness, candidates are screened with a short window; the final case is
+        # re-validated below with the full window before anything is reported
+        outcome, rc, hist, output = runner.run(text, active_cpus=prog.cfg_active_cpus, budget_s=chk.case_budget_s,
+                                               window=(chk.shrink_stuck_window if state.get("stuck_mode") else None))
         verdicts = chk.judge(prog, hist, outcome, rc, output)
         if record:
             stats["evaluations"] += 1
@@ -116,6 +119,7 @@ def worker_main(argv):
                                          verdicts=[v.to_json() for v in fresh], output=output[-3000:], active_cpus=prog.cfg_active_cpus)
                 if state["first_fail_t"] is None:
                     state["first_fail_t"] = time.time()
+                    state["stuck_mode"] = (fresh[0].kind == "stuck")
                 raise CaseFailed(fresh[0].what)
 
     rnd = 0
@@ -180,6 +184,7 @@ class E3Check:
     leaks = False
     case_budget_s = 60.0
     shrink_budget_s = 90.0
+    shrink_stuck_window = 3.0
     round_examples = 400
     quick_budget_s = 45.0
     thorough_budget_s = 900.0
@@ -227,6 +232,7 @@ class E3Check:
         rep = core.Report(self.prop, tier, seed)
         for v in ("hook", "hook-asan") if self.asan_share else ("hook",):
             self.build(v)
+        ncorpus = self.corpus_tier(rep)
         nworkers = self.workers_quick if tier == "quick" else self.workers_thorough
         nworkers = max(1, min(nworkers, core.ncpu() - 1))
         budget_s = budget if budget else (self.quick_budget_s if tier == "quick" else self.thorough_budget_s)
@@ -278,6 +284,7 @@ class E3Check:
             for e in s.get("worker_errors", []) + s.get("hypothesis_errors", []):
                 errors.append(e)
         cov["distinct_nontrivial"] = len(hashes)
+        cov["corpus_replayed"] = ncorpus
         if errors:
             rep.notes.append("worker errors: " + " | ".join(errors)[:3000])
         seen_sig = set()
@@ -304,32 +311,60 @@ class E3Check:
             return 2
         return rep.finish()
 
+    def replay_program(self, runner, text, active_cpus, runs, known):
+        """run a saved program `runs` times; returns list of (run index, verdict) for fresh violations"""
+        import re
+        text = re.sub(r"cpu=\d+", "cpu=%d" % runner.cpu, text)
+        bad = []
+        for i in range(runs):
+            outcome, rc, hist, output = runner.run(text, active_cpus=active_cpus, budget_s=self.case_budget_s)
+            prog = e3.Program.from_text(text, active_cpus)
+            for v in self.judge(prog, hist, outcome, rc, output):
+                if self.match_known(v, known) is None:
+                    bad.append((i, v))
+        return bad
+
     def replay(self, path):
         b = json.load(open(path))
         variant = b.get("worker", {}).get("variant", "hook")
         exe = self.build(variant)
         cpu, lock = reserve_cpu()
         cpu = cpu if cpu is not None else 2
-        kind = b.get("worker", {}).get("kind", "F1")
         runner = e3.Runner(exe, os.path.join(SHM_ROOT, "%s-replay-%d" % (self.prop, os.getpid())), cpu, os.cpu_count(), asan="asan" in variant)
-        known = core.known_for(self.prop)
-        bad = 0
-        text = b["program"]
-        import re
-        text = re.sub(r"cpu=\d+", "cpu=%d" % cpu, text)
-        for i in range(5):
-            outcome, rc, hist, output = runner.run(text, active_cpus=b.get("active_cpus", 1), budget_s=self.case_budget_s)
-            prog = self.compile(_tuplify(b["recipe"]), kind=kind, cpu=cpu, tier="quick")
-            vs = [v for v in self.judge(prog, hist, outcome, rc, output) if self.match_known(v, known) is None]
-            for v in vs:
-                print("  replay %d: %s" % (i, v.what))
-            bad += 1 if vs else 0
+        bad = self.replay_program(runner, b["program"], b.get("active_cpus", 1), 5, core.known_for(self.prop))
+        for i, v in bad:
+            print("  replay run %d: %s" % (i, v.what))
         shutil.rmtree(runner.prog_path.rsplit("/", 1)[0], ignore_errors=True)
         if bad:
             print("VIOLATION property=%s replay=%s" % (self.prop, path))
             return 1
         print("replay passes (0/5 runs violated): %s" % path)
         return 0
+
+    def corpus_tier(self, rep):
+        """seconds-long regression tier: every saved program under corpus/<prop>/ is re-run (bypasses the generator)"""
+        d = os.path.join(VERIF, "corpus", self.prop)
+        if not os.path.isdir(d):
+            return 0
+        exe = self.build("hook")
+        cpu, lock = reserve_cpu()
+        cpu = cpu if cpu is not None else 2
+        runner = e3.Runner(exe, os.path.join(SHM_ROOT, "%s-corpus-%d" % (self.prop, os.getpid())), cpu, os.cpu_count())
+        n = 0
+        known = core.known_for(self.prop)
+        for f in sorted(os.listdir(d)):
+            if not f.endswith(".json"):
+                continue
+            b = json.load(open(os.path.join(d, f)))
+            n += 1
+            bad = self.replay_program(runner, b["program"], b.get("active_cpus", 1), 3, known)
+            if bad:
+                b2 = dict(b, verdicts=[bad[0][1].to_json()], corpus_file=f)
+                rep.add_violation(core.Violation(self.prop, "regression corpus entry %s: %s" % (f, bad[0][1].what), b2, ext="json"))
+        shutil.rmtree(runner.prog_path.rsplit("/", 1)[0], ignore_errors=True)
+        if lock:
+            lock.close()
+        return n
 
 
 def _tuplify(x):
